@@ -1,6 +1,6 @@
 (* C03: the canonical k-mer column index is a dense ordered bijection with a closed-form size. *)
 From Coq Require Import NArith List.
-From KT Require Import Gen.Generated Gen.GeneratedFacts Model.Kmer Model.Show Model.Ops Model.Pipeline Proof.RevComp Proof.PosMap Proof.CanonCount Proof.Oligo Proof.RowsProof Proof.PipelineProof.
+From KT Require Import Gen.Generated Gen.FactsBase Gen.FactLetters Model.Kmer Model.Show Model.Ops Model.Pipeline Proof.RevComp Proof.PosMap Proof.CanonCount Proof.Oligo Proof.RowsProof Proof.PipelineProof.
 Import ListNotations.
 Open Scope N_scope.
 
